@@ -7,6 +7,7 @@ import random
 import numpy as np
 
 from .. import build, surfconn
+from ..ref import topo
 from ..ref.surface_ref import RefSurface
 from ..zoo import surfaces
 from ..ctx import stable_hash
@@ -23,12 +24,19 @@ ASSUMPTIONS = ["inputs are oriented manifold polygon surfaces without unused ver
                "corner ids follow element order of the face list (C02)"]
 
 
+EDGE_CONTAINER_ANSWERS = {"edge_id", "is_edge_on_border", "vertex_to_vertices", "vertex_to_edges", "is_vertex_on_border", "face_to_edges", "edge_to_vertices",
+                          "other_edge_end", "boundary_edges", "interior_edges", "boundary_vertices", "interior_vertices"}
+
+
 def cases(seed, tier):
     rng = random.Random(seed * 7919 + 1)
     out = []
     n = 400 if tier == "quick" else 8000
     korders = 4 if tier == "quick" else 10
     rows = ["list", "tuple", "npint", "nprow"]
+    for k, name in enumerate(sorted(ANCHORS)):
+        for srt in (True, False):
+            out.append({"gen": "anchor", "name": name, "seed": 1000 + 2 * k + srt, "max_size": 1, "sorted": srt, "orders": korders, "first": 3 * k, "irows": rows[k % 4], "vrows": "list"})
     for i in range(n):
         out.append({"gen": "zoo", "seed": rng.randrange(2 ** 31), "max_size": 6 if tier == "quick" else rng.choice([4, 8, 12]),
                     "sorted": i % 4 != 3, "orders": korders, "first": (i * korders) % 34, "irows": rows[i % 4],
@@ -36,8 +44,23 @@ def cases(seed, tier):
     return out
 
 
+ANCHORS = {
+    # closed quad mesh with two poles (0, 1) and four equatorial vertices: consecutive quads share two sides, opposite quads touch at the poles only
+    "two_pole_quads": (6, [[0, 2, 1, 3], [0, 3, 1, 4], [0, 4, 1, 5], [0, 5, 1, 2]]),
+    # disk of a quad and three triangles: quad (0,1,2,3) and triangle (0,4,2) share the vertices 0 and 2, a diagonal of the quad
+    "quad_and_diagonal_triangle": (5, [[0, 1, 2, 3], [0, 4, 2], [0, 3, 4], [2, 4, 3]]),
+    "mixed_grid": (9, [[0, 1, 4, 3], [1, 2, 4], [2, 5, 4], [3, 4, 7, 6], [4, 5, 8], [4, 8, 7]]),
+}
+
+
 def run_case(desc, ctx):
-    z = surfaces.make(desc["seed"], max_size=desc["max_size"])
+    if desc["gen"] == "anchor":
+        nv, F = ANCHORS[desc["name"]]
+        F = [list(f) for f in F]
+        V = np.array([[float(i % 3), float(i // 3), 0.1 * i * i] for i in range(nv)])
+        z = {"V": V, "F": F, "cls": "anchor_" + desc["name"], "topo": topo.analyse(nv, F)}
+    else:
+        z = surfaces.make(desc["seed"], max_size=desc["max_size"])
     V, F = z["V"], z["F"]
     a = z["topo"]
     rng = random.Random(desc["seed"] ^ 0x5bd1)
@@ -63,13 +86,23 @@ def run_case(desc, ctx):
     interior = ref.nV - len(ref.border_vertices)
     if len(F) >= 8 and interior >= 1:
         ctx.nontrivial(stable_hash([len(V), F]))
-    with build.config(sort_neighborhoods=sorted_on):
+    # configuration: the edge container not completed from the faces (config.complete_edges_from_faces = False, only the declared edges -
+    # here none - are stored).  Everything that is answered from the edge container (edge ids, vertex rings, border classification) then
+    # legitimately describes that container; the corner / half-edge / face answers must still be those of the face list.
+    no_edges = desc["seed"] % 8 == 5
+    if no_edges:
+        ctx.cls("config:complete_edges_from_faces=False")
+    with build.config(sort_neighborhoods=sorted_on, complete_edges_from_faces=not no_edges):
         ok, m0 = ctx.call("construct", build.surface, V, F, desc["vrows"], desc["irows"])
         canonical = list(range(nacc))
         T0 = surfconn.run_script(ctx, m0, S, canonical)
         edges = build.edges_list(m0)
         fc = [(int(m0.face_corners.element(c)), int(m0.face_corners.adj(c))) for c in range(len(m0.face_corners))]
-        surfconn.verify(ctx, T0, ref, edges, P, sorted_on, face_corners=fc)
+        if no_edges:
+            judged = {k: v for k, v in T0.items() if k not in EDGE_CONTAINER_ANSWERS}
+            surfconn.verify(ctx, judged, ref, sorted(ref.edges), P, sorted_on, face_corners=fc)
+        else:
+            surfconn.verify(ctx, T0, ref, edges, P, sorted_on, face_corners=fc)
         for j in range(desc["orders"]):
             first = (desc["first"] + j) % nacc
             rest = [i for i in range(nacc) if i != first]
@@ -87,7 +120,7 @@ def run_case(desc, ctx):
                     ctx.obs("order_equal", name)  # the failing query itself was already reported by run_script
     # history: the connectivity was computed under the OTHER value of the sorting switch; the switch is then set, the connectivity is cleared
     # (documented way to have it recomputed) and each accessor in turn is the first one asked: the answers must be those of a fresh mesh
-    if desc["seed"] % 3 == 0:
+    if desc["seed"] % 3 == 0 and not no_edges:
         ctx.cls("history:switch_sorting_then_clear")
         with build.config(sort_neighborhoods=not sorted_on):
             ok, m = ctx.call("construct", build.surface, V, F, desc["vrows"], desc["irows"])
